@@ -21,6 +21,10 @@ type Params struct {
 	Seed   uint64 `json:"seed"`
 	Others int    `json:"others"` // further identities owned by B only (bystanders of a failing merge)
 	MaxMut int    `json:"maxmut"`
+	// Ticks > 0 adds the action tick(x), at most Ticks times per replica: x's logical bug clocks
+	// advance (as creating or editing a bug does), so that the replicas' clocks differ and the
+	// versions they create record different times
+	Ticks int `json:"ticks"`
 }
 
 func (p Params) String() string { b, _ := json.Marshal(p); return string(b) }
@@ -31,6 +35,7 @@ type model struct {
 	shared entity.Id   // identity mutated on both replicas
 	others []entity.Id // identities mutated on B only
 	muts   int
+	ticks  map[string]int
 }
 
 func New(params string) (xstate.Model, error) {
@@ -126,7 +131,37 @@ func (m *model) Actions() []string {
 	for _, x := range names {
 		out = append(out, fmt.Sprintf("push(%s)", x), fmt.Sprintf("pull(%s)", x))
 	}
+	for _, x := range names {
+		if m.ticks[x] < m.p.Ticks {
+			out = append(out, fmt.Sprintf("tick(%s)", x))
+		}
+	}
 	return out
+}
+
+// clockRegression: would a version created now on repo record, for some clock the identity's last
+// version names, a lower value or no value at all? (The statement: such identities are rejected.)
+func clockRegression(repo repository.ClockedRepo, i *identity.Identity) (bool, string) {
+	clocks, err := repo.AllClocks()
+	if err != nil {
+		return false, ""
+	}
+	last := i.LastModificationLamports()
+	names := make([]string, 0, len(last))
+	for n := range last {
+		names = append(names, n)
+	}
+	sort.Strings(names)
+	for _, n := range names {
+		c, ok := clocks[n]
+		if !ok {
+			return true, fmt.Sprintf("clock %s (last version: %d) does not exist here", n, last[n])
+		}
+		if c.Time() < last[n] {
+			return true, fmt.Sprintf("clock %s is %d here, the last version recorded %d", n, c.Time(), last[n])
+		}
+	}
+	return false, ""
 }
 
 func parse(a string) (string, []string) {
@@ -248,6 +283,10 @@ func (m *model) Apply(a string) (string, []xstate.Violation, error) {
 			return "unreadable", nil, nil
 		}
 		nver := len(before[target])
+		regress, why := false, ""
+		if field != "meta" {
+			regress, why = clockRegression(repo, i)
+		}
 		if field == "meta" {
 			i.SetMetadata(fmt.Sprintf("k%d", nver), "by "+x)
 		} else {
@@ -256,11 +295,33 @@ func (m *model) Apply(a string) (string, []xstate.Violation, error) {
 			}
 		}
 		if err := i.Commit(repo); err != nil {
+			if regress {
+				// a version with decreasing or dropped clocks must be refused, leaving everything as it was
+				appendOnly("refused-mutate")
+				if got := m.localChains(x)[target]; !equalChain(got, before[target]) {
+					add("c09.reject", "refused-commit-changed-the-chain", "the commit was refused (%v) but the stored chain changed: %v -> %v", err, before[target], got)
+				}
+				return "refused-clock-regression", viol, nil
+			}
 			add("c09.commit", "commit-fails", "committing a mutated identity failed: %v", err)
 			return "commit-error", viol, nil
 		}
+		if regress {
+			add("c09.reject", "clock-regression-committed", "a new version of identity %s was committed on %s although %s: the stored history has decreasing or dropped logical clocks", target, x, why)
+		}
 		appendOnly("mutate")
 		return "ok", viol, nil
+	case "tick":
+		if m.ticks == nil {
+			m.ticks = map[string]int{}
+		}
+		m.ticks[x]++
+		for _, name := range []string{"bugs-create", "bugs-edit"} {
+			if _, err := repo.Increment(name); err != nil {
+				return "", nil, err
+			}
+		}
+		return "ok", nil, nil
 	case "push":
 		if _, err := identity.Push(repo, "R"); err != nil {
 			return "rejected", nil, nil
@@ -356,7 +417,6 @@ func (m *model) Apply(a string) (string, []xstate.Violation, error) {
 	return "", nil, fmt.Errorf("unknown action %s", a)
 }
 
-
 type expect struct {
 	status   entity.MergeStatus
 	scenario string
@@ -392,7 +452,9 @@ func equalChain(a, b []repository.Hash) bool {
 	return isPrefix(a, b) && len(a) == len(b)
 }
 
-func (m *model) Key() (string, error) { return m.w.Key(fmt.Sprint(m.muts)) }
+func (m *model) Key() (string, error) {
+	return m.w.Key(fmt.Sprint(m.muts), fmt.Sprint(m.ticks["A"], m.ticks["B"]))
+}
 
 func (m *model) Check() ([]string, []xstate.Violation, error) {
 	var viol []xstate.Violation
